@@ -24,8 +24,8 @@ def is_sub(t, want):
     return any(s == want for s in subterms(t))
 
 
-def run(ctx, prog):
-    A = Auditor(ctx, prog)
+def run(ctx, prog, only=None):
+    A = Auditor(ctx, prog, only=only)
     S = prog.structs
     DATA = S['CoreDocumentData']
     DOC = S['CoreDocument']
@@ -95,8 +95,9 @@ def run(ctx, prog):
     # the id is removed from every relationship set (references included) on every way out; unless an embedded method
     # was found (search complete) the general-purpose set is searched as well.  Loop over the five results: unwind 6.
     f = prog.one(IMPL + r'remove_method_and_scope$')
-    paths, ex = A.paths(f, unwind=6, allow_bound=True)
-    ctx.bounds.append('remove_method_and_scope: result loop unrolled 6 times (five relationship sets); longer iterations cut')
+    paths, ex = A.paths(f, unwind=6, allow_bound=True) if A.wants('remove_method_and_scope/') else ([], None)
+    if A.wants('remove_method_and_scope/'):
+        ctx.bounds.append('remove_method_and_scope: result loop unrolled 6 times (five relationship sets); longer iterations cut')
 
     def r_rms(p):
         if p.kind != 'return':
@@ -300,6 +301,8 @@ def run(ctx, prog):
 
     # ------------------------------------------------------------------------------------ constructor gate (loops unrolled)
     f = prog.one(IMPL + r'check_id_constraints$|core_document::<impl at [^>]*>::check_id_constraints$')
+    if not A.wants('check_id_constraints/'):
+        return
     paths, ex = A.paths(f, inline=r'check_id_constraints::\{closure', unwind=2, allow_bound=True)
     ctx.bounds.append('check_id_constraints: at most 2 iterations per loop (%d longer paths cut)' % A.last_bound_hits)
 
